@@ -992,7 +992,8 @@ def run(rep, tier):
         check_wire(prep, pp)
         check_minop(prep, pp)
         check_forest_order(prep, pp)
-        for r in ('R04a', 'R04b', 'R04g', 'R04c', 'R04d', 'R04h', 'R04f', 'R04m', 'R16e'):
+        check_same_communicator(prep, pp)
+        for r in ('R04a', 'R04b', 'R04g', 'R04c', 'R04d', 'R04h', 'R04f', 'R04m', 'R16e', 'R04j'):
             rep.positive(r, 'witness/positive/c04_mpi.cc', any(i.status == 'violation' and i.rule == r for i in prep.instances.values()))
     except env.AnalysisBroken as e:
         rep.analysis_broken('positive example c04_mpi.cc does not parse against the current headers: ' + str(e)[:300])
